@@ -29,15 +29,16 @@ class Untranslatable(Exception):
 PCT = re.compile(r"%(?P<flag>[ +\-0]*)(?P<w>\d*)\.(?P<d>\d+)l?(?P<k>[fEe])")
 BRACE = re.compile(r"\{[^{}:]*:(?P<flag>[ +\-0<]*)(?P<w>\d*)\.(?P<d>\d+)(?P<k>[fEe])\}")
 
-# interface -> (file, function, lattice group, position group, position function override, cartesian, reader, lattice kind)
-# group = index into the function's list of numeric format groups (string constants holding float specs, source order);
+# interface -> public entry function of the writer, lattice group, position group, cartesian, reader, lattice kind.
+# group = index into the list of numeric format groups (string constants holding float specs) of the entry function and of
+# every function of the same module it reaches through calls, in call order — private helpers may be renamed, split or
+# merged freely as long as the order of the format strings is kept;
 # position "vasp" = the writer calls vasp.get_scaled_positions_lines; "repr" = f"{x}" without a format spec
 ROLES = {
-    "vasp": dict(file="vasp.py", func="_get_vasp_structure_header_lines", lattice=0, position="vasp", cart=False, reader="free",
-                 poscaller="get_vasp_structure_lines"),
+    "vasp": dict(file="vasp.py", func="get_vasp_structure_lines", lattice=0, position=1, cart=False, reader="free", shares_vasp_positions=True),
     "abinit": dict(file="abinit.py", func="get_abinit_structure", lattice=0, position="vasp", cart=False, reader="free"),
     "qe": dict(file="qe.py", func="get_pwscf_structure", lattice=0, position="vasp", cart=False, reader="free"),
-    "wien2k": dict(file="wien2k.py", func="_get_wien2k_struct", lattice=0, position=2, cart=False, reader="columns", latkind="cellpar"),
+    "wien2k": dict(file="wien2k.py", func="write_wein2k", lattice=0, position=2, cart=False, reader="columns", latkind="cellpar"),
     "elk": dict(file="elk.py", func="get_elk_structure", lattice=0, position="vasp", cart=False, reader="free"),
     "siesta": dict(file="siesta.py", func="get_siesta_structure", lattice=0, position=1, cart=False, reader="free"),
     "crystal": dict(file="crystal.py", func="get_crystal_structure", lattice=0, position=3, cart=True, reader="free"),
@@ -46,8 +47,8 @@ ROLES = {
     "aims": dict(file="aims.py", func="write_aims", lattice=0, position=1, cart=True, reader="free"),
     "castep": dict(file="castep.py", func="get_castep_structure", lattice=0, position=1, cart=False, reader="free"),
     "fleur": dict(file="fleur.py", func="get_fleur_structure", lattice=0, position=1, cart=False, reader="free", through_numpy_str=True),
-    "abacus": dict(file="abacus.py", func="_list_elem2str", lattice=0, position=0, cart=False, reader="free", joined_by="get_abacus_structure"),
-    "lammps": dict(file="lammps.py", func="LammpsStructureDumper._run", lattice="repr", position="repr", cart=True, reader="free", latkind="triangular"),
+    "abacus": dict(file="abacus.py", func="get_abacus_structure", lattice=0, position=0, cart=False, reader="free", joined_in_entry=True),
+    "lammps": dict(file="lammps.py", func="class:LammpsStructureDumper", lattice="repr", position="repr", cart=True, reader="free", latkind="triangular"),
     "pwmat": dict(file="pwmat.py", func="get_pwmat_structure", lattice=0, position=1, cart=False, reader="free"),
 }
 
@@ -66,6 +67,61 @@ def _find_func(tree, dotted):
             raise Untranslatable("function %s not found" % dotted)
         body = node.body
     return node
+
+
+def _reachable(tree, entry):
+    """entry function (or `class:Name`: all methods of the class) and the module-level functions / methods it reaches
+    through calls by name, in order of first call"""
+    funcs = {}
+    for st in tree.body:
+        if isinstance(st, ast.FunctionDef):
+            funcs[st.name] = st
+        elif isinstance(st, ast.ClassDef):
+            for m in st.body:
+                if isinstance(m, ast.FunctionDef):
+                    funcs.setdefault(m.name, m)
+    if entry.startswith("class:"):
+        cls = [st for st in tree.body if isinstance(st, ast.ClassDef) and st.name == entry[6:]]
+        if not cls:
+            raise Untranslatable("class %s not found" % entry[6:])
+        start = [m for m in cls[0].body if isinstance(m, ast.FunctionDef)]
+    else:
+        if entry not in funcs:
+            raise Untranslatable("function %s not found" % entry)
+        start = [funcs[entry]]
+    order, seen = [], set()
+
+    def visit(fn):
+        if id(fn) in seen:
+            return
+        seen.add(id(fn))
+        order.append(fn)
+        calls = []
+        for n in ast.walk(fn):
+            if isinstance(n, ast.Call):
+                f = n.func
+                nm = f.id if isinstance(f, ast.Name) else f.attr if isinstance(f, ast.Attribute) else None
+                if nm in funcs and funcs[nm] is not fn:
+                    calls.append((n.lineno, n.col_offset, nm))
+        for _, _, nm in sorted(calls):
+            visit(funcs[nm])
+
+    for fn in start:
+        visit(fn)
+    return order
+
+
+def _groups_reachable(tree, entry, src):
+    out = []
+    for fn in _reachable(tree, entry):
+        out += _groups(fn, src)
+    # a nested helper is seen both inside its parent and on its own: keep the first occurrence of a source position
+    seen, res = set(), []
+    for g in out:
+        if g[:2] not in seen:
+            seen.add(g[:2])
+            res.append(g)
+    return res
 
 
 def _groups(fn, src):
@@ -176,60 +232,61 @@ def table(repo):
         return cache[fname]
 
     vsrc, vtree = load("vasp.py")
-    vfn = _find_func(vtree, "_get_scaled_positions_lines")
-    vg = _groups(vfn, vsrc)
+    # vasp.get_scaled_positions_lines (public helper used by abinit, qe, elk and the POSCAR writer)
+    vfns = _reachable(vtree, "get_scaled_positions_lines")
+    vg = [g for fn in vfns for g in _groups(fn, vsrc)]
     if len(vg) != 1:
-        raise Untranslatable("vasp._get_scaled_positions_lines: %d format groups" % len(vg))
+        raise Untranslatable("vasp.get_scaled_positions_lines: %d format groups" % len(vg))
     vasp_pos = _field(vg[0][2], vg[0][3], vg[0][4])
-    vasp_wraps = _wraps(vfn)
-    wrapper = _find_func(vtree, "get_scaled_positions_lines")
-    if not _calls(wrapper, "_get_scaled_positions_lines"):
-        raise Untranslatable("vasp.get_scaled_positions_lines no longer delegates")
+    vasp_wraps = any(_wraps(fn) for fn in vfns)
 
     rows = []
     for name, r in ROLES.items():
         src, tree = load(r["file"])
-        fn = _find_func(tree, r["func"])
-        gs = _groups(fn, src)
-        joined_by = r.get("joined_by")
+        fns = _reachable(tree, r["func"])
+        gs = _groups_reachable(tree, r["func"], src)
         extra_join = False
-        if joined_by:
-            jf = _find_func(tree, joined_by)
-            # the caller joins the strings of `func` with a blank
+        if r.get("joined_in_entry"):
+            # the entry function joins the strings of the helper that holds the format with a blank
+            helper_names = {f.name for f in fns[1:]}
             ok = False
-            for n in ast.walk(jf):
+            for n in ast.walk(fns[0]):
                 if isinstance(n, ast.Call) and isinstance(n.func, ast.Attribute) and n.func.attr == "join" and isinstance(n.func.value, ast.Constant) \
-                        and n.func.value.value == " " and n.args and _calls(n.args[0], r["func"].split(".")[-1]):
+                        and n.func.value.value == " " and n.args and any(_calls(n.args[0], h) for h in helper_names):
                     ok = True
             if not ok:
-                raise Untranslatable("%s: %s no longer joins %s with a blank" % (name, joined_by, r["func"]))
+                raise Untranslatable("%s: %s no longer joins its formatted numbers with a blank" % (name, r["func"]))
             extra_join = True
 
         def field(idx, what):
             if idx == "repr":
                 # f"{x}" of a float: shortest string that round-trips (17 significant digits at most)
-                if not any(isinstance(n, ast.FormattedValue) and n.format_spec is None for n in ast.walk(fn)):
+                if not any(isinstance(n, ast.FormattedValue) and n.format_spec is None for fn in fns for n in ast.walk(fn)):
                     raise Untranslatable("%s: no bare f-string field in %s" % (name, r["func"]))
                 return (0, 17, True, "repr")
             if idx == "vasp":
-                cfn = _find_func(tree, r.get("poscaller", r["func"]))
-                if not (_calls(cfn, "get_scaled_positions_lines") or _calls(cfn, "_get_scaled_positions_lines")):
+                if not any(_calls(fn, "get_scaled_positions_lines") or _calls(fn, "_get_scaled_positions_lines") for fn in fns):
                     raise Untranslatable("%s: %s no longer calls get_scaled_positions_lines" % (name, r["func"]))
                 return vasp_pos + ("fixed",)
             if not isinstance(idx, int) or idx >= len(gs):
-                raise Untranslatable("%s: %s has %d numeric format groups, ROLES expects %s group %r" % (name, r["func"], len(gs), what, idx))
+                raise Untranslatable("%s: %s reaches %d numeric format groups, ROLES expects %s group %r" % (name, r["func"], len(gs), what, idx))
             g = gs[idx]
             w, d, sep = _field(g[2], g[3], g[4] or extra_join)
             if what == "position" and r.get("through_numpy_str"):
                 # the value is first turned into text by str(ndarray) (numpy prints 8 significant digits) and parsed back
-                if not any(isinstance(n, ast.Call) and isinstance(n.func, ast.Name) and n.func.id == "str" for n in ast.walk(fn)):
+                if not any(isinstance(n, ast.Call) and isinstance(n.func, ast.Name) and n.func.id == "str" for fn in fns for n in ast.walk(fn)):
                     raise Untranslatable("%s: %s no longer passes positions through str()" % (name, r["func"]))
                 d = min(d, 8)
             return (w, d, sep, "fixed")
 
         lat = field(r["lattice"], "lattice")
         pos = field(r["position"], "position")
-        wraps = vasp_wraps if r["position"] == "vasp" else _wraps(fn)
+        if r["position"] == "vasp" or r.get("shares_vasp_positions"):
+            wraps = vasp_wraps
+            if r.get("shares_vasp_positions") and pos[:3] != vasp_pos:
+                raise Untranslatable("vasp: POSCAR positions are no longer written by get_scaled_positions_lines' format")
+        else:
+            wraps = any(_wraps(fn) for fn in fns)
         rows.append(dict(name=name, lattice=lat, position=pos, cart=r["cart"], wraps=wraps, reader=r["reader"],
                          latkind=r.get("latkind", "vectors"), ngroups=len(gs)))
     return rows
